@@ -160,7 +160,15 @@ func (r *runner) writeOpt(vid uint32, e tr.Ev, fsync bool) {
 }
 
 func (r *runner) del(vid uint32, e tr.Ev) {
-	req, _ := http.NewRequest("DELETE", "http://"+r.url+"/"+r.fid(vid, tr.I(e, "k"), tr.S(e, "c")), nil)
+	u := "http://" + r.url + "/" + r.fid(vid, tr.I(e, "k"), tr.S(e, "c"))
+	// "via": "replicate" = the request carries type=replicate, as a delete forwarded by another copy does (any
+	// client can send it); the statement's cookie clause does not depend on it
+	if via, _ := e["via"].(string); via == "replicate" {
+		u += "?type=replicate"
+	} else {
+		e["via"] = ""
+	}
+	req, _ := http.NewRequest("DELETE", u, nil)
 	resp, err := r.http.Do(req)
 	if err != nil {
 		e["res"] = "err"
@@ -392,18 +400,60 @@ func (r *runner) runConc(ex []tr.Ev, batched bool) []tr.Ev {
 		_, err := c.VolumeDelete(ctx, &volume_server_pb.VolumeDeleteRequest{VolumeId: vid})
 		return err
 	})
+	// "vols": 2 = the even keys live in a second volume of the same server (file ids of different volumes are
+	// independent blobs; what one volume stores must not depend on what is written to another at the same time)
+	vid1, vid2 := vid, vid
+	if tr.I(ex[0], "vols") == 2 {
+		v2, err := r.c.NewVolume("", "000", "")
+		if err != nil {
+			tr.Fatal("new volume: %v", err)
+		}
+		vid2 = v2
+		defer r.admin(func(c volume_server_pb.VolumeServerClient) error {
+			_, err := c.VolumeDelete(ctx, &volume_server_pb.VolumeDeleteRequest{VolumeId: v2})
+			return err
+		})
+	}
 	doOp := func(p int, op tr.Ev) {
+		vid := vid1
+		if tr.I(op, "k")%2 == 0 {
+			vid = vid2
+		}
 		opName := tr.S(op, "op")
 		if opName == "swrite" {
 			opName = "write"
 		} else if opName == "sread" {
 			opName = "read"
 		}
+		if opName == "sburst" {
+			opName = "burst"
+		}
+		ds := []interface{}{}
+		if opName == "burst" {
+			ds = tr.List(op["ds"])
+		}
 		call := tr.Ev{"ev": "call", "p": p, "op": opName, "k": tr.I(op, "k"), "c": tr.S(op, "c"),
-			"d": tr.S(op, "d"), "m": tr.S(op, "m")}
+			"d": tr.S(op, "d"), "m": tr.S(op, "m"), "ds": ds}
 		emit(call)
 		var ret tr.Ev
 		switch tr.S(op, "op") {
+		case "sburst":
+			// write ds[1], read, write ds[2], read, ... on the Store; recorded compactly: what every read returned
+			res := "ok"
+			obs := []interface{}{}
+			for _, d := range ds {
+				w := r.storeOp(vid, p, tr.Ev{"op": "swrite", "k": op["k"], "c": op["c"], "d": d}, batched)
+				if tr.S(w, "res") != "ok" {
+					res = "err"
+				}
+				g := r.storeOp(vid, p, tr.Ev{"op": "sread", "k": op["k"], "c": op["c"]}, batched)
+				if tr.S(g, "st") == "data" {
+					obs = append(obs, tr.S(g, "d"))
+				} else {
+					obs = append(obs, "!"+tr.S(g, "st"))
+				}
+			}
+			ret = tr.Ev{"ev": "ret", "p": p, "res": res, "obs": obs}
 		case "swrite", "sdelete", "sread":
 			ret = r.storeOp(vid, p, op, batched)
 		case "write":
